@@ -19,6 +19,8 @@ fn factory_for(id: &str) -> Option<(&'static str, Factory)> {
         "C03" => ("C03", |t| Box::new(props::c03::C03::new(t)) as Box<dyn Property>),
         "C12" => ("C12", |t| Box::new(props::c12::C12::new(t)) as Box<dyn Property>),
         "C04" => ("C04", |t| Box::new(props::c04::C04::new(t)) as Box<dyn Property>),
+        "C08" => ("C08", |t| Box::new(props::c08::C08::new(t)) as Box<dyn Property>),
+        "C15" => ("C15", |t| Box::new(props::c15::C15::new(t)) as Box<dyn Property>),
         "C11" => ("C11", |t| Box::new(props::c11::C11::new(t)) as Box<dyn Property>),
         _ => return None,
     })
@@ -26,6 +28,9 @@ fn factory_for(id: &str) -> Option<(&'static str, Factory)> {
 
 fn main() {
     core::install_panic_hook();
+    if std::env::var("VERIF_KEEP_STDERR").is_err() {
+        core::silence_library_stderr();
+    }
     let args: Vec<String> = std::env::args().skip(1).collect();
     let mut id = None;
     let mut tier = match std::env::var("VERIF_TIER").as_deref() {
@@ -80,14 +85,14 @@ fn main() {
     let id = match id {
         Some(i) => i,
         None => {
-            eprintln!("usage: ucgverif <property id> [quick|thorough] [--seed N] [--replay file]");
+            core::note(&format!("usage: ucgverif <property id> [quick|thorough] [--seed N] [--replay file]"));
             std::process::exit(2);
         }
     };
     let (sid, factory) = match factory_for(&id) {
         Some(f) => f,
         None => {
-            eprintln!("unknown property {}", id);
+            core::note(&format!("unknown property {}", id));
             std::process::exit(2);
         }
     };
